@@ -549,6 +549,50 @@ def o_dispatch(case):
     return {"nontrivial": bool((v < 0).any()), "labels": [f"spec={spec}"]}
 
 
+@st.composite
+def _dispatch_param_case(draw):
+    """per-mode parameters: every mode gets its own l1 threshold, given as a list or as a dict whose keys are
+    inserted in an arbitrary order; proximal_operator must use the parameter of mode `order`"""
+    c = draw(_tensor_case(matrix=True))
+    n = draw(st.integers(2, 4))
+    c["n_const"] = n
+    c["order"] = draw(st.integers(0, n - 1))
+    c["params"] = [k / 4 for k in draw(st.lists(st.integers(1, 12), min_size=n, max_size=n, unique=True))]
+    c["form"] = draw(st.sampled_from(["list", "dict", "dict", "dict_subset"]))
+    c["key_order"] = draw(st.permutations(list(range(n))))
+    c["kw"] = draw(st.sampled_from(["l1_reg", "l2_square_reg", "simplex", "hard_sparsity"]))
+    return c
+
+
+def o_dispatch_param(case):
+    v = _arr(case)
+    n, o, kw = case["n_const"], case["order"], case["kw"]
+    params = list(case["params"])
+    if kw == "hard_sparsity":
+        params = [int(4 * p) for p in params]
+    if case["form"] == "list":
+        spec = list(params)
+        mine = params[o]
+    else:
+        keys = [k for k in case["key_order"]]
+        if case["form"] == "dict_subset":
+            keys = [k for k in keys if k != (o + 1) % n]       # one other mode left unconstrained
+        spec = {k: params[k] for k in keys}                    # insertion order = drawn key order
+        mine = params[o]
+    out = _same_shape(P.proximal_operator(v.copy(), n_const=n, order=o, **{kw: spec}), v, "proximal_operator/per_mode")
+    if kw == "l1_reg":
+        want = np.sign(v) * np.maximum(np.abs(v) - mine, 0)
+    elif kw == "l2_square_reg":
+        want = v / (1 + 2 * mine)
+    elif kw == "simplex":
+        want = np.stack([ref.simplex_proj(c, mine) for c in _cols(v)], axis=1)
+    else:
+        want = P.hard_thresholding(v.copy(), mine)   # the operator itself is certified in its own sub-check
+    close(out, want, "proximal_operator/per_mode_parameter", rel=1e-9, scale=_scale_of(v, mine))
+    return {"nontrivial": True, "labels": [f"form={case['form']}", f"kw={kw}",
+                                           f"keys_sorted={list(case['key_order']) == sorted(case['key_order'])}"]}
+
+
 def subchecks(tier):
     pc = _pair_case()
     return [
@@ -567,6 +611,7 @@ def subchecks(tier):
         SubCheck("svd_thresholding", _mat_pair(), o_svt, quick=400, thorough=4000),
         SubCheck("procrustes", _mat_pair(), o_procrustes, quick=400, thorough=4000),
         SubCheck("dispatch", _dispatch_case(), o_dispatch, quick=300, thorough=3000),
+        SubCheck("dispatch_per_mode_parameter", _dispatch_param_case(), o_dispatch_param, quick=300, thorough=3000),
     ]
 
 
